@@ -38,6 +38,7 @@ func main() {
 	dump := flag.String("dump", "", "debug: dump facts of the named function")
 	dumpEff := flag.String("dumpeff", "", "debug: dump effects of the named function")
 	list := flag.Bool("list", false, "debug: list functions")
+	genParams := flag.Bool("genparams", false, "maintenance: print the frozen parameter-name table (paramnames_gen.go) for the current tree")
 	flag.Parse()
 	if t := os.Getenv("VERIF_TIER"); t != "" && *tier == "" {
 		*tier = t
@@ -50,11 +51,15 @@ func main() {
 	}
 	os.Unsetenv("GOWORK")
 
-	if *list || *dump != "" || *dumpEff != "" {
+	if *list || *dump != "" || *dumpEff != "" || *genParams {
 		c, err := Load(*repo, "")
 		if err != nil {
 			fmt.Println(err)
 			os.Exit(2)
+		}
+		if *genParams {
+			genParamNames(c)
+			return
 		}
 		if *list {
 			for _, f := range c.FuncSeq {
@@ -78,7 +83,7 @@ func main() {
 			sites, err := unprovenBounds(c)
 			fmt.Println(len(sites), err)
 			for _, s := range sites {
-				fmt.Printf("%s:%d:%d %s %s | %s\n", s.File, s.Line, s.Col, s.Kind, s.Func, s.Expr)
+				fmt.Printf("%s:%d:%d\t%s\t%s\t%s\t%s\n", s.File, s.Line, s.Col, s.Kind, s.Func, s.Expr, s.Src)
 			}
 			return
 		}
